@@ -832,7 +832,8 @@ func (s *UtxoStore) ScriptAddressUnspents(tx mwdb.ReadTransaction, scriptAddrs m
 		if !ok {
 			continue
 		}
-		cred.flags.SpentByUnmined = existsRawUnminedInput(nsUnminedInputs, itKey) != nil
+		// unmined inputs are keyed by outpoint, not by the wallet-prefixed unspent key
+		cred.flags.SpentByUnmined = existsRawUnminedInput(nsUnminedInputs, canonicalOutPoint(&op.Hash, op.Index)) != nil
 
 		item := &Credit{
 			OutPoint:      op,
